@@ -1,4 +1,6 @@
 """C06 generator: hotspot QPS reject rules (token bucket per parameter value)."""
+import importlib.util as _ilu, os as _os
+_ms = _ilu.spec_from_file_location("worldmix", _os.path.join(_os.path.dirname(__file__), "worldmix.py")); MIX = _ilu.module_from_spec(_ms); _ms.loader.exec_module(MIX)
 LEVEL = "proof"
 MODEL = "lean/Sentinel/Hotspot.lean (Lru, HsCtrl.checkReject, extractArgs) + World.hsSlot"
 RULE = ("one hotspot QPS/reject rule (sometimes two) per resource: q 0..6, burst 0..4, duration 1..3 s, per-value overrides, batch 1..4, 1-4 distinct values "
@@ -112,6 +114,12 @@ def gen_reload_case(rng):
     return ops
 
 
-def gen(rng, tier):
+def gen_own(rng, tier):
     n = 500 if tier == "quick" else 25000
     return [gen_case(rng) if i % 6 else gen_reload_case(rng) for i in range(n)]
+
+
+def gen(rng, tier):
+    """the property's own streams, with every 8th case taken from the shared mixed-world stream (gen/worldmix.py)"""
+    cases = gen_own(rng, tier)
+    return [c if i % 8 != 7 else MIX.gen_mix(rng) for i, c in enumerate(cases)]
